@@ -282,6 +282,19 @@ def main(argv):
             cen[u.name] = sorted(ids)
         json.dump(cen, open(os.path.join(VERIF, "units", "census.json"), "w"), indent=1, sort_keys=True)
         print("census written:", sum(len(v) for v in cen.values()), "obligations")
+        # the shapes the annotations were written for (rule R23 ALPHA compares the current text of a function with this one)
+        import spec as S
+        from rsx import find_item
+        shapes = {}
+        for u in units.values():
+            for f in u.fns():
+                try:
+                    pth = os.path.join(REPO, f.src)
+                    shapes[S.shape_key(f)] = find_item(f.src, open(pth).read(), "fn", f.name, f.impl).text
+                except Exception as e:
+                    print("shape not recorded:", f.key, e)
+        json.dump(shapes, open(os.path.join(VERIF, "units", "shapes.json"), "w"), indent=1, sort_keys=True)
+        print("shapes written:", len(shapes), "functions")
         return 0
     prop = argv[0]
     tier = os.environ.get("VERIF_TIER", "quick")
